@@ -39,9 +39,9 @@ func (*prop) Assumptions() []string {
 }
 func (*prop) MinDistinct(tier string) int64 {
 	if tier == "thorough" {
-		return 5000
+		return 900
 	}
-	return 250
+	return 100
 }
 
 type params struct {
